@@ -53,3 +53,10 @@ SPECS = {
                  [("sizes", 260, 40, "some")],
                  ["res", "evt"], ["new", "alloc", "slice", "tfill", "aalloc", "agrow"]),
 }
+
+# families built in their own modules (each defines SPECS: dict)
+for _m in ("specs_vec", "specs_str", "specs_box", "specs_borrow", "specs_threads"):
+    try:
+        SPECS.update(__import__(_m).SPECS)
+    except ImportError:
+        pass
